@@ -6,6 +6,11 @@ from ..dsl import Rule
 from . import c04
 
 
+def ev1_nested(c, ca):
+    from ..ev1 import nested_of
+    return nested_of(c, ca)
+
+
 def gen(ctx):
     rng = ctx.rng
     for _ in range(ctx.n(200, 2000)):
@@ -40,7 +45,7 @@ def oracle(c):
     snap = (ca.tobytes(), ca.dtype, ca.shape)
     memo = ev2.memo_value(c["memo"])
     nb = ev2.NB[c["nb"]]
-    rule = Rule(c["rule"], c.get("scale", 1), clobber=bool(c.get("clobber")), mixret=c.get("mixret") or False)
+    rule = Rule(c["rule"], c.get("scale", 1), clobber=bool(c.get("clobber")), mixret=c.get("mixret") or False, nested=ev1_nested(c, ev2.make_ca(c)))
     first = cpl.evolve2d(ca, timesteps=T1, apply_rule=rule, r=c["r"], neighbourhood=nb, memoize=memo)
     if (ca.tobytes(), ca.dtype, ca.shape) != snap:
         return "the caller's array was modified by evolve2d"
@@ -55,13 +60,13 @@ def oracle(c):
     second = cpl.evolve2d(first, timesteps=T2, apply_rule=rule, r=c["r"], neighbourhood=nb, memoize=memo)
     if first.tobytes() != snap1:
         return "the caller's array was modified by the continued evolve2d"
-    once = cpl.evolve2d(ev2.make_ca(c), timesteps=T1 + T2 - 1, apply_rule=Rule(c["rule"], c.get("scale", 1), clobber=bool(c.get("clobber")), mixret=c.get("mixret") or False), r=c["r"],
+    once = cpl.evolve2d(ev2.make_ca(c), timesteps=T1 + T2 - 1, apply_rule=Rule(c["rule"], c.get("scale", 1), clobber=bool(c.get("clobber")), mixret=c.get("mixret") or False, nested=ev1_nested(c, ev2.make_ca(c))), r=c["r"],
                         neighbourhood=nb, memoize=memo)
     if second.shape != once.shape or second.dtype != once.dtype or second.tobytes() != once.tobytes():
         return "evolving %d then %d steps differs from %d steps at once" % (T1, T2, T1 + T2 - 1)
     if H > 1:
         c2 = dict(c, hist=[c["hist"][-1]])
-        alone = cpl.evolve2d(ev2.make_ca(c2), timesteps=T1, apply_rule=Rule(c["rule"], c.get("scale", 1), clobber=bool(c.get("clobber")), mixret=c.get("mixret") or False), r=c["r"],
+        alone = cpl.evolve2d(ev2.make_ca(c2), timesteps=T1, apply_rule=Rule(c["rule"], c.get("scale", 1), clobber=bool(c.get("clobber")), mixret=c.get("mixret") or False, nested=ev1_nested(c, ev2.make_ca(c))), r=c["r"],
                              neighbourhood=nb, memoize=memo)
         if alone[1:].tobytes() != first[H:].tobytes():
             return "new grids depend on more than the last grid of the history"
